@@ -110,6 +110,32 @@ func (it *Interp) rangeStmt(x *ast.RangeStmt) {
 		}
 	case NilVal:
 		return
+	case *sym.Term:
+		// range over an integer (Go 1.22): 0 .. n-1
+		n, ok := constIndex(b)
+		if !ok || n > 64 {
+			it.undecided(x.Pos(), "range over a symbolic integer")
+		}
+		for i := 0; i < n; i++ {
+			elems = append(elems, sym.Int(int64(i)))
+		}
+		if x.Value != nil {
+			it.undecided(x.Pos(), "range over an integer with a value variable")
+		}
+	case *LocalVec:
+		n, ok := constIndex(b.Len)
+		if !ok || n > 64 {
+			it.undecided(x.Pos(), "range over a local vector of symbolic length")
+		}
+		for i := 0; i < n; i++ {
+			k := sym.Int(int64(i)).String()
+			c, has := b.Cells[k]
+			if !has {
+				c = it.newLoc("cell", sym.Zero())
+				b.Cells[k] = c
+			}
+			elems = append(elems, c)
+		}
 	default:
 		it.undecided(x.Pos(), "range over %T", base)
 	}
